@@ -25,9 +25,10 @@ RULE = ("random programs on 1..4 qubits over the Clifford alphabet with noise fr
         "digest of those; non-trivial = at least one noise model of non-zero strength is attached")
 ASSUMPTIONS = ["channels: depolarizing (1-p) rho + p/3 sum_P P rho P; Pauli error = conjugation; photon loss = scaling by (1-l), applied where "
                "the noise object says (before / after), per control / target for two entries", "the stabilizer mixture is converted to a "
-               "density matrix by the oracle (weights x projectors), never by graphiq", "tolerance 1e-8"]
+               "density matrix by the oracle (weights x projectors), never by graphiq", "tolerance 1e-11 on traces / weights, 1e-10 on matrix entries (absolute)"]
 TIMEOUT = {"quick": 900, "thorough": 7200}
 STRENGTHS = [0.0, 1e-3, 0.1, 0.5, 1.0]
+TINY = [1e-9, 1e-7, 1e-6, 1e-5]      # strengths that a tolerance-based "is this noiseless?" shortcut would swallow
 
 
 def shards(tier, seed):
@@ -49,6 +50,8 @@ def floors(tier):
 def rand_noise(rng, allow_none=True):
     k = int(rng.integers(5 if allow_none else 4))
     after = bool(rng.integers(2))
+    if rng.random() < 0.12:
+        return (["depol", "loss"][int(rng.integers(2))], TINY[int(rng.integers(len(TINY)))], after)
     if k == 0:
         return ("depol", STRENGTHS[int(rng.integers(5))], after)
     if k == 1:
@@ -258,7 +261,17 @@ def reference_run(prog, run, oplist_noise, ctx, stop_at_uncertain=True):
             mixture_outcomes = m if isinstance(m, list) else None
             m = int(m[0]) if isinstance(m, list) else int(m)
             p = ref.probs(qs[0])
-            certain = max(p) > 1 - 1e-9
+            certain = max(p) > 1 - 1e-12       # at the level of the comparison tolerance: a 1e-9 depolarizing makes an outcome uncertain
+            if not certain and p[m] < 1e-6:
+                # the backend took an outcome that is possible but so improbable that post-selecting on it divides by ~0: nothing
+                # can be compared reliably beyond this point (counted, for both backends)
+                info["uncertain"] = True
+                info["truncated"] = step
+                info["ambiguous"] = True
+                info["pre_state"] = None
+                if ctx is not None:
+                    ctx.count("measurement:numerically_ambiguous_outcome_taken")
+                return ref, info
             if not certain:
                 info["uncertain"] = True
                 if stop_at_uncertain:
@@ -446,7 +459,7 @@ def judge_case(ctx, m, mon, rng, prog, oplist, circ, klass, how, switch, det, ca
             pre = info.get("pre_state")
             if pre is not None and pre[0] == "ms":
                 rho_pre = sum(p * dense.projector_of_group(sn.group()) for p, sn in pre[1])
-                if not np.allclose(rho_pre, ref.rho, atol=1e-8):
+                if not np.allclose(rho_pre, ref.rho, atol=1e-8, rtol=0):
                     ctx.violation("noisy_state_differs_from_reference", case, {"backend": backend, "where": "before the first uncertain measurement",
                                                                                "max_abs_diff": float(np.max(np.abs(rho_pre - ref.rho)))}, key=f"state:{bname}:{how}:pre_measurement")
             continue
@@ -457,15 +470,15 @@ def judge_case(ctx, m, mon, rng, prog, oplist, circ, klass, how, switch, det, ca
         results[bname] = ("full", rho)
         det_ = {"backend": backend, "trace": float(np.real(np.trace(rho))), "reference_trace": float(np.real(np.trace(ref.rho))),
                 "survival_product": ref.loss_factor}
-        if not np.allclose(rho, rho.conj().T, atol=1e-9):
+        if not np.allclose(rho, rho.conj().T, atol=1e-9, rtol=0):
             ctx.violation("result_not_hermitian", case, det_, key=f"hermitian:{bname}")
         elif dense.psd_min_eig(rho) < -1e-9:
             ctx.violation("result_not_positive_semidefinite", case, {**det_, "min_eigenvalue": dense.psd_min_eig(rho)}, key=f"psd:{bname}")
-        if abs(np.real(np.trace(rho)) - ref.loss_factor) > 1e-8:
+        if abs(np.real(np.trace(rho)) - ref.loss_factor) > 1e-11:
             ctx.violation("trace_is_not_the_product_of_survival_probabilities", case, det_, key=f"trace:{bname}")
-        elif kind == "mixture" and abs(weight - ref.loss_factor) > 1e-8:
+        elif kind == "mixture" and abs(weight - ref.loss_factor) > 1e-11:
             ctx.violation("mixture_weight_is_not_the_product_of_survival_probabilities", case, {**det_, "weight": weight}, key="weight:mixture")
-        elif not np.allclose(rho, ref.rho, atol=1e-8):
+        elif not np.allclose(rho, ref.rho, atol=1e-10, rtol=0):
             wrappers = [o.text() + " ~" + repr(o.noise) for o in oplist if o.kind == "W" and getattr(o, "noise", None)]
             ctx.violation("noisy_state_differs_from_reference", case, {**det_, "max_abs_diff": float(np.max(np.abs(rho - ref.rho))), "noisy_wrappers": wrappers[:4]},
                           key=f"state:{bname}:{how}:{'wrapper' if wrappers else 'plain'}")
@@ -490,7 +503,7 @@ def judge_case(ctx, m, mon, rng, prog, oplist, circ, klass, how, switch, det, ca
             try:
                 st0, run0 = compile_with(m, backend, circ, det, False, mon)
                 rho0, _, _ = backend_rho(st0)
-                if not np.allclose(rho, rho0, atol=1e-9):
+                if not np.allclose(rho, rho0, atol=1e-9, rtol=0):
                     ctx.violation("zero_noise_differs_from_noiseless_compile", case, {"backend": backend, "switch": switch}, key=f"switch:{switch}:{bname}")
             except Exception as e:
                 ctx.violation("noiseless_compile_raises", case, {"backend": backend, "exception": _exc(e)}, key=f"noiseless_exc:{bname}")
@@ -500,7 +513,7 @@ def judge_case(ctx, m, mon, rng, prog, oplist, circ, klass, how, switch, det, ca
             b, _ = compile_with(m, "StabilizerCompiler", circ, det, switch != "off", mon)
             ra = results["dm"][1]
             rb, _, _ = backend_rho(b)
-            if ra is not None and rb is not None and not np.allclose(ra, rb, atol=1e-8):
+            if ra is not None and rb is not None and not np.allclose(ra, rb, atol=1e-8, rtol=0):
                 ctx.violation("backends_disagree_after_uncertain_measurement_on_noisy_state", case, {"max_abs_diff": float(np.max(np.abs(ra - rb)))},
                               key="measurement-on-noisy-state")
         except Exception as e:
